@@ -17,6 +17,8 @@ fp("dask/layers.py", "ArrayOverlapLayer._construct_graph", "_expand_keys_around_
 
 fp("dask/array/_shuffle.py", "_shuffle", "_validate_indexer", "concatenate_arrays")
 fp("dask/array/chunk.py", "slice_with_int_dask_array", "slice_with_int_dask_array_aggregate", "getitem")
-fp("dask/array/core.py", "_vindex", "_vindex_array", "_numpy_vindex")
+fp("dask/array/core.py", "_vindex", "_vindex_array", "_numpy_vindex", "_vindex_slice_and_transpose", "_vindex_merge",
+   "normalize_arg")
+fp("dask/array/slicing.py", "sanitize_index")
 fp("dask/array/slicing.py", "slice_with_newaxes", "slice_wrap_lists", "slice_array", "slice_with_int_dask_array",
    "slice_with_int_dask_array_on_axis", "slice_with_bool_dask_array")
